@@ -152,6 +152,10 @@ def run(ctx):
         ends = [prog.funcs[q] for q in fp.get('end_dchunk', ()) if q in prog.funcs]
         decs = dict((prog.funcs[q].unit, prog.funcs[q]) for q in fp.get('decompress', ()) if q in prog.funcs)
         ck.min_instances('end_dchunk slot targets', len(ends), 1)
+        # ---- d  the chunk verdict itself: positive only on the equal edge of a byte-wise digest comparison
+        from ..rules import dlrules
+        nv = dlrules.verdict_gates(ck, prog, config, 'C15-d', (('validate_chunk', None, None),))
+        ck.min_instances('positive-verdict exits of validate_chunk', nv, 1)
         for e in ends:
             unit_decoding = bool(reaches(prog, e, ('comp_add_to_dc',)))
             d = decs.get(e.unit)
@@ -173,6 +177,34 @@ def run(ctx):
 
 
 MUTANTS = [
+    {'id': 'm15x', 'desc': 'chunk digests compared with an XOR-fold helper (seeded c15r3)', 'file': 'src/lib/hash/hash.c',
+     'old': '', 'new': '',
+     'edits': [('src/lib/hash/hash.c', """int validate_chunk(zckChunk *idx, zck_log_type bad_checksum) {""",
+                """static int digest_cmp(const char *a, const char *b, size_t n) {
+    unsigned char diff = 0;
+    for(size_t i = 0; i < n; i++)
+        diff ^= (unsigned char)(a[i] ^ b[i]);
+    return diff;
+}
+
+int validate_chunk(zckChunk *idx, zck_log_type bad_checksum) {"""),
+               ('src/lib/hash/hash.c', """    if(memcmp(digest, idx->digest, idx->digest_size) != 0) {""",
+                """    if(digest_cmp(digest, idx->digest, idx->digest_size) != 0) {""")],
+     'expect': 'R2.gate validate_chunk'},
+    {'id': 'n15x', 'desc': 'chunk digests compared with a constant-time OR-fold helper', 'file': 'src/lib/hash/hash.c',
+     'old': '', 'new': '',
+     'edits': [('src/lib/hash/hash.c', """int validate_chunk(zckChunk *idx, zck_log_type bad_checksum) {""",
+                """static int digest_cmp(const char *a, const char *b, size_t n) {
+    unsigned char diff = 0;
+    for(size_t i = 0; i < n; i++)
+        diff |= (unsigned char)(a[i] ^ b[i]);
+    return diff;
+}
+
+int validate_chunk(zckChunk *idx, zck_log_type bad_checksum) {"""),
+               ('src/lib/hash/hash.c', """    if(memcmp(digest, idx->digest, idx->digest_size) != 0) {""",
+                """    if(digest_cmp(digest, idx->digest, idx->digest_size) != 0) {""")],
+     'expect': None},
     {'id': 'm29', 'desc': 'comp_read tests comp_end_dchunk with !', 'file': 'src/lib/comp/comp.c',
      'old': 'if(comp_end_dchunk(zck, use_dict, zck->comp.data_idx->length) < 1) {',
      'new': 'if(!comp_end_dchunk(zck, use_dict, zck->comp.data_idx->length)) {',
